@@ -7,27 +7,32 @@ import logging
 from core import Case
 
 PROP = 'C16'
-COQ_TARGETS = ['theories/CovRun.vo']
+COQ_TARGETS = ['theories/CovQueue.vo']
 COQ_IMPORTS = 'From Bac Require Import Base Cov.'
 RULE = ('cases: seeded timelines of 6..28 events over a device with 6 objects (analogValue, analogInput, binaryValue, '
-        'multiStateValue, pulseConverter [covPeriod 0 or 3..20 s], calendar = no COV support; + an unknown object id) and 3 subscriber '
-        'stacks x 2 process ids: Subscribe(confirmed?, lifetime in {absent,0,1,2,5,30,60,120}) / Cancel / Write(presentValue | '
-        'statusFlags | covIncrement) / Drain / Advance(1/8 s ticks, incl. exactly onto, one tick before and after every expiry) / '
-        'ReadProperty(activeCovSubscriptions).  Analog writes are chosen around the boundary |v - last| = increment (exactly, one '
-        'quarter below/above), returns to the old value and bursts without a drain.  Observables per event: ack/error code, '
-        'exceptions, the sorted notifications received by the subscribers (client, process, object, confirmed?, time remaining, '
-        'value, flags) and the sorted active-subscription list.  non-trivial = the timeline produced >= 1 change notification or '
-        '>= 1 expiry/cancel of a live subscription; distinct by the event list.')
+        'multiStateValue, pulseConverter [covPeriod 0 or 1..20 s], calendar = no COV support; + an unknown object id) and 3 subscriber '
+        'stacks x 2 process ids, 15 % of the timelines with 1-2 subscribers that never acknowledge confirmed notifications. Events: '
+        'Subscribe / SubscribeCOVProperty(presentValue) (confirmed? in {yes,no,absent}, lifetime in {absent,0,1,2,5,30,60,120}) / Cancel / '
+        'Write(presentValue | statusFlags | covIncrement) / Drain / Advance(1/8 s ticks, incl. exactly onto, one tick before and after every '
+        'expiry) / ReadProperty(activeCovSubscriptions); half of the timelines are *stepped*: requests are delivered without running '
+        'the deferred COV functions (SubscribeNow / CancelNow / ReadNow) and StepQ runs exactly one deferred COV function of the real '
+        'core.deferredFns (network and IOCB plumbing always to quiescence), so that writes, subscribes, cancels and the _triggered '
+        'coalescing interleave arbitrarily.  Analog writes are aimed at |v - last| = increment (exactly, one quarter below/above), '
+        'returns to the old value and bursts.  Observables per event: ack/error code, exceptions, the sorted notifications issued '
+        '(client, process, object, confirmed?, time remaining, value, flags; the direct check also compares them with what the '
+        'subscriber stacks received) and the sorted active-subscription list.  non-trivial = the timeline produced >= 1 change '
+        'notification; distinct by (event list, silent subscribers).')
 TRUSTED = ['model coq/theories/Cov.v written by hand after service/cov.py (Subscription, COVDetection, COVIncrementCriteria, '
            'PulseConverterCriteria, ActiveCOVSubscriptions, ChangeOfValueServices.do_SubscribeCOVRequest / cancel_subscription), '
            'service/detect.py (DetectionMonitor.property_change, _execute) and object.py Property.WriteProperty monitors; tie = correspondence',
-           'harness/vnet.py virtual clock + vlan wiring (the deferred queue is drained to quiescence after every request; writes are '
-           'local `obj.prop = v` assignments between drains)',
+           'harness/vnet.py virtual clock + vlan wiring; the harness drives core.deferredFns itself: DetectionAlgorithm-bound deferred '
+           'functions one at a time on request, everything else (LAN delivery tasks, IOCB queue triggers) to quiescence after every event',
            'binary32/binary64 arithmetic of the increment test and of taskTime - now: sampled on binary-exact quarters / eighths only']
-ASSUMPTIONS = ['subscribers acknowledge every confirmed notification (no retransmissions)',
-               'present values and increments are multiples of 1/4, times multiples of 1/8 s (exact in binary floating point)',
-               'requests carrying a lifetime but no issueConfirmedNotifications are not generated',
-               'one device, one LAN, local station addresses']
+ASSUMPTIONS = ['present values and increments are multiples of 1/4, times multiples of 1/8 s (exact in binary floating point)',
+               'time advances only with an empty deferred queue (core.run never sleeps while deferred functions are pending)',
+               'silent subscribers stay silent for the whole timeline (4 transmissions 3 s apart, then abort); the model compares what '
+               'the COV service issues, the direct check what arrives',
+               'one device, one LAN, local station addresses; SubscribeCOVProperty only for presentValue, without covIncrement']
 
 TICKS = 8                 # model time unit: 1/8 s
 SCALE = 4                 # analog values: quarters
